@@ -3,7 +3,8 @@
 //! histories that reach the index-type limit exhaustively enumerable.
 use petgraph::graph::IndexType;
 
-#[derive(Copy, Clone, Default, PartialEq, Eq, PartialOrd, Ord, Hash, Debug)]
+#[derive(Copy, Clone, Default, PartialEq, Eq, PartialOrd, Ord, Hash, Debug, serde::Serialize, serde::Deserialize)]
+#[serde(transparent)]
 pub struct Tiny<const M: usize>(u8);
 
 unsafe impl<const M: usize> IndexType for Tiny<M> {
@@ -30,3 +31,7 @@ pub fn maxix<Ix: IndexType>() -> usize {
     let m = <Ix as IndexType>::max().index();
     m.min(1_000_000_000)
 }
+
+/// index types the drivers can also push through serde (C17)
+pub trait SIx: IndexType + serde::Serialize + serde::de::DeserializeOwned {}
+impl<T: IndexType + serde::Serialize + serde::de::DeserializeOwned> SIx for T {}
